@@ -4,7 +4,7 @@ import vt
 vt.use_repo()
 warnings.simplefilter('ignore')
 from vt import api
-from vt.api import cond, deep, fam, tier
+from vt.api import cond, deep, fam, tier, pick
 from vt.refs import ivrle
 from vt.harness.pdus import UIDCH
 from vt.harness.c06 import make_assoc, MSG_CLASSES
@@ -35,6 +35,7 @@ AE_FIELDS = ('MoveDestination', 'MoveOriginatorApplicationEntityTitle')
 
 def set_fields(msg, mid, st, n, opt):
     """Assign the class's fields: UIDs of length n, ids = mid, status/priority/counters = st; optional ones iff opt."""
+    n = pick(n, 1, 64)
     for f in msg.command_fields:
         if f == 'CommandGroupLength':
             continue
